@@ -153,6 +153,9 @@ def check_converge(case):
                 raise Failure(f.sig, f"at {tag}: {f.msg}")
 
         verify("startup")
+        # devices the client knew (and had therefore sent its per-device enableBLOB for) at the last quiescence point:
+        # a device first seen through the very definition that accompanies a BLOB cannot have BLOBs enabled yet
+        known_devices = set(client.list_devices())
         in_flight = max_in_flight = 0
         toggles = writes = 0
         labels = set()
@@ -162,6 +165,7 @@ def check_converge(case):
                 st_.settle()
                 redef_pending.clear()
                 verify(f"settle after op {i}")
+                known_devices = set(client.list_devices())
                 max_in_flight = max(max_in_flight, in_flight)
                 in_flight = 0
                 continue
@@ -205,6 +209,8 @@ def check_converge(case):
                     if t in ("venable", "genable") and op["on"]:
                         dd = op["d"] % len(specs)
                         for gg, vv in dep.vectors[dd]:
+                            if specs[dd]["name"] not in known_devices:
+                                continue
                             if vv["kind"] == "BLOB" and (t == "genable" or (gg is g and vv is v)) and dep.is_enabled(dd, gg, vv):
                                 if t == "venable" or gg["attr"] == list(drivers.effective_groups(specs[dd]).values())[op["g"] % len(drivers.effective_groups(specs[dd]))]["attr"]:
                                     need_blob[(dd, vv["name"])] = blob_off
